@@ -1,10 +1,12 @@
 #!/bin/bash
 # runs every registered check (tier $1, default quick), one after the other; summary on stdout
-TIER=${1:-quick}
+# usage: tools/runall.sh [quick|thorough] [per-check timeout seconds] [ids...]
+TIER=${1:-quick}; TMO=${2:-3600}; shift; shift
 cd /verif
-for p in $(awk '{print $1}' props.conf | sort -u); do
+IDS="$@"; [ -z "$IDS" ] && IDS=$(awk '{print $1}' props.conf | sort -u)
+for p in $IDS; do
   s=$(date +%s)
-  timeout 3600 ./check $p $TIER > /tmp/runall-$p.log 2>&1
+  VERIF_PROGRESS=1 timeout $TMO ./check $p $TIER > /tmp/runall-$TIER-$p.log 2>&1
   rc=$?
-  echo "$p rc=$rc $(( $(date +%s) - s ))s $(grep -E '^(OK|VIOLATION|INCONCLUSIVE)' /tmp/runall-$p.log | head -n 1 | cut -c1-150)"
+  echo "$p rc=$rc $(( $(date +%s) - s ))s $(grep -E '^(OK|VIOLATION|INCONCLUSIVE)' /tmp/runall-$TIER-$p.log | head -n 1 | cut -c1-150)"
 done
